@@ -81,12 +81,17 @@ claim("C05", "exploration",
       "all attribute dicts on texts with newlines, multi-run values, every grammar string of <=3 items, back-to-back parses.",
       "parse/peel_off_esc_code regexes not under deductive contract; oracle = ECMA-48 interpreter (spec/sgr.py).",
       "contract-based deductive verification of token_type + bounded enumeration against a reference SGR interpreter", "DESIGN 9/C05")
-claim("C11", "exploration",
-      "ChunkSplitter.request is proved against its contract (next unread characters plus at most one pad, fits, greedy, bookkeeping) "
-      "for all runs; the generator that fills lines across runs is decided by an exhaustive bounded suite (strings <=5 over narrow/"
-      "wide/combining x layouts x columns 2..4, interleaved iterators).",
-      "Assumed additivity of wcswidth and character widths 0..2; the generator _width_aware_splitlines is bounded only.",
-      "contract-based deductive verification of the splitter + exhaustive bounded checking of the line filler", "DESIGN 9/C11")
+claim("C11", "proof",
+      "ChunkSplitter.request is proved against its contract (next unread characters plus at most one pad - only when the next character is "
+      "double-width and the line is then full -, fits, greedy, bookkeeping, non-empty, reported width) for all runs; the generator "
+      "_width_aware_splitlines is proved over that contract for any number of runs and lines: nested loop invariants (for over the runs, "
+      "while over the requests), the yielded lines as a ghost sequence, and a ghost trace of the cells taken from the source and the cells "
+      "emitted: every character taken exactly once, in order, with its formatting; the lines hold exactly what was emitted; a pad is always "
+      "the last thing on its line; no line empty or wider than `columns`; every line but the last exactly `columns` wide.  reinit and the "
+      "public wrapper verified.  Bounded stand-in: strings <=5 over narrow/wide/combining x layouts x columns 2..4, interleaved iterators.",
+      "Assumed: wcswidth additive, character widths 0..2 (dependency contract); generator body observed as the sequence of its yields; "
+      "placement of zero-width characters compared up to attachment in the bounded oracle.",
+      "contract-based deductive verification (nested loop invariants, ghost output/trace) + exhaustive bounded checking of the line filler", "DESIGN 9/C11")
 claim("C15", "exploration",
       "Bounded only: 34 delegated str methods, split (literal and regex), splitlines, ljust/rjust, join on random and enumerated values "
       "against str on the text, per-character formatting of pieces, shared/invented formatting.",
